@@ -16,6 +16,8 @@ pub uninterp spec fn s_powf(x: f64, y: f64) -> f64;
 pub uninterp spec fn s_powi(x: f64, n: i32) -> f64;
 pub uninterp spec fn s_sqrt(x: f64) -> f64;
 pub uninterp spec fn s_min(x: f64, y: f64) -> f64;
+pub uninterp spec fn s_clamp(x: f64, a: f64, b: f64) -> f64;
+pub uninterp spec fn INFINITY_s() -> f64;
 pub uninterp spec fn s_max(x: f64, y: f64) -> f64;
 pub uninterp spec fn s_neg(x: f64) -> f64;
 pub uninterp spec fn s_of_usize(x: usize) -> f64;
@@ -63,12 +65,21 @@ pub broadcast axiom fn r_div_special(a: f64, b: f64) ensures R(b) != 0real && R(
 pub broadcast axiom fn r_mul_zero(a: f64, b: f64) ensures R(a) == 0real || R(b) == 0real ==> R(#[trigger] a.mul_spec(b)) == 0real;
 pub broadcast axiom fn r_div_one(a: f64, b: f64) ensures R(a) == 1real && 0real < R(b) <= 1real ==> R(#[trigger] a.div_spec(b)) >= 1real,
     R(a) >= 1real && 0real < R(b) <= 99real / 100real ==> R(a.div_spec(b)) >= 101real / 100real;
+pub broadcast axiom fn r_div_unit(a: f64, b: f64) ensures R(b) == 1real ==> R(#[trigger] a.div_spec(b)) == R(a),
+    R(a) >= 1real && 0real < R(b) <= 1real ==> R(a.div_spec(b)) >= 1real,
+    R(a.div_spec(b)) > 1real && R(b) > 0real ==> R(a) > R(b), R(a.div_spec(b)) > 1real && R(b) < 0real ==> R(a) < R(b),
+    R(b) < 0real ==> (R(a.div_spec(b)) > 0real <==> R(a) < 0real) && (R(a.div_spec(b)) < 0real <==> R(a) > 0real);
+pub broadcast axiom fn r_of_usize(x: usize) ensures R(#[trigger] s_of_usize(x)) >= 0real, x >= 1 ==> R(s_of_usize(x)) >= 1real;
+pub broadcast axiom fn r_powf_le1(a: f64, p: f64) ensures R(a) >= 1real && R(p) <= 0real ==> 0real < R(#[trigger] s_powf(a, p)) <= 1real,
+    R(a) > 1real && R(p) > 0real ==> R(s_powf(a, p)) > 1real;
+pub broadcast axiom fn r_mul_shrink(a: f64, b: f64) ensures 0real <= R(b) <= 4real / 5real ==> 5real * rabs(R(#[trigger] a.mul_spec(b))) <= 4real * rabs(R(a));
 pub broadcast axiom fn r_cmp(a: f64, b: f64) ensures #[trigger] a.partial_cmp_spec(&b) == (if R(a) < R(b) { Some(Ordering::Less) } else if R(a) == R(b) { Some(Ordering::Equal) } else { Some(Ordering::Greater) });
 pub broadcast axiom fn r_eq(a: f64, b: f64) ensures #[trigger] a.eq_spec(&b) == (R(a) == R(b));
 pub broadcast axiom fn r_signum(a: f64) ensures R(a) > 0real ==> R(#[trigger] s_signum(a)) == 1real, R(a) < 0real ==> R(s_signum(a)) == 0real - 1real, R(s_signum(a)) == 1real || R(s_signum(a)) == 0real - 1real;
 pub broadcast axiom fn r_abs(a: f64) ensures R(#[trigger] s_abs(a)) == rabs(R(a));
 pub broadcast axiom fn r_min(a: f64, b: f64) ensures R(#[trigger] s_min(a, b)) == rmin(R(a), R(b));
 pub broadcast axiom fn r_max(a: f64, b: f64) ensures R(#[trigger] s_max(a, b)) == rmax(R(a), R(b));
+pub broadcast axiom fn r_clamp(x: f64, a: f64, b: f64) ensures R(a) <= R(b) ==> R(#[trigger] s_clamp(x, a, b)) == rmax(R(a), rmin(R(x), R(b)));
 pub broadcast axiom fn r_neg(a: f64) ensures R(#[trigger] s_neg(a)) == 0real - R(a);
 pub broadcast axiom fn r_powf(a: f64, p: f64) ensures R(a) > 0real ==> R(#[trigger] s_powf(a, p)) > 0real, R(a) >= 1real && R(p) >= 0real ==> R(s_powf(a, p)) >= 1real;
 pub broadcast axiom fn r_sqrt(a: f64) ensures R(#[trigger] s_sqrt(a)) >= 0real;
@@ -76,7 +87,7 @@ pub broadcast axiom fn r_nan(a: f64) ensures !(#[trigger] s_is_nan(a));
 #[verifier::allow(broadcast_without_trigger)]
 pub broadcast axiom fn r_epsilon() ensures R(EPSILON_s()) > 0real;
 pub broadcast group f64_ops { f64_add_req, f64_sub_req, f64_mul_req, f64_div_req, f64_deterministic,
-    r_add, r_sub, r_mul, r_mul_unit_r, r_mul_unit_l, r_mul_sign, r_mul_sign2, r_mul_le, r_div_pos, r_div_special, r_mul_zero, r_div_one, r_cmp, r_eq, r_signum, r_abs, r_min, r_max, r_neg, r_powf, r_sqrt, r_nan, r_epsilon }
+    r_add, r_sub, r_mul, r_mul_unit_r, r_mul_unit_l, r_mul_sign, r_mul_sign2, r_mul_le, r_div_pos, r_div_special, r_mul_zero, r_div_one, r_div_unit, r_of_usize, r_powf_le1, r_mul_shrink, r_cmp, r_eq, r_signum, r_abs, r_min, r_max, r_clamp, r_neg, r_powf, r_sqrt, r_nan, r_epsilon }
 }
 pub assume_specification [f64::signum] (x: f64) -> (r: f64) ensures r == s_signum(x);
 pub assume_specification [f64::abs] (x: f64) -> (r: f64) ensures r == s_abs(x);
@@ -85,7 +96,9 @@ pub assume_specification [f64::powi] (x: f64, n: i32) -> (r: f64) ensures r == s
 pub assume_specification [f64::sqrt] (x: f64) -> (r: f64) ensures r == s_sqrt(x);
 pub assume_specification [f64::min] (x: f64, y: f64) -> (r: f64) ensures r == s_min(x, y);
 pub assume_specification [f64::max] (x: f64, y: f64) -> (r: f64) ensures r == s_max(x, y);
+pub assume_specification [f64::clamp] (x: f64, a: f64, b: f64) -> (r: f64) requires R(a) <= R(b) ensures r == s_clamp(x, a, b);
 pub assume_specification [f64::is_nan] (x: f64) -> (r: bool) ensures r == s_is_nan(x);
 #[verifier::external_body] pub fn vneg(x: f64) -> (r: f64) ensures r == s_neg(x) { -x }
 #[verifier::external_body] pub fn to_f(x: usize) -> (r: f64) ensures r == s_of_usize(x) { x as f64 }
+#[verifier::external_body] pub exec const F64_INFINITY: f64 ensures F64_INFINITY == INFINITY_s() { f64::INFINITY }
 #[verifier::external_body] pub exec const F64_EPSILON: f64 ensures F64_EPSILON == EPSILON_s() { f64::EPSILON }
